@@ -201,3 +201,5 @@ func verifC12History(k, ndirs, maxData int) {
 func verifC12Quick()    { verifC12History(3, 1, 1) }
 func verifC12TwoDirs()  { verifC12History(2, 2, 2) }
 func verifC12Thorough() { verifC12History(4, 1, 1) }
+func verifC12K5()       { verifC12History(5, 1, 1) }
+func verifC12TwoDirs3() { verifC12History(3, 2, 2) }
